@@ -398,6 +398,9 @@ func (fr *frame) enterLoop(li *loopInfo, b *ssa.BasicBlock) {
 		if ti := u.typeInvariant(n, phi.Type(), 0); ti != "" {
 			u.assert(ti)
 		}
+		if isRefLike(phi.Type()) {
+			u.assert("(<= " + refOf(n, phi.Type()) + " " + fr.st.get(u, allocKey) + ")")
+		}
 	}
 	// assume invariants
 	if li.spec != nil {
